@@ -3,6 +3,7 @@
 # ./run.sh <ID> replay <file>           re-execute one saved case (no proptest involved)
 # Rebuilds the harness binary against /repo's current working tree (hooks on:
 # RUSTFLAGS --cfg varpulis_verif via harness/.cargo/config.toml).
+# thorough additionally runs tools/fuzz.sh <ID> (libFuzzer campaign) for properties that have a fuzz target.
 # exit 0 = held, 1 = VIOLATION printed, 2 = inconclusive (build failure, watchdog, ...)
 set -u
 ID="${1:?usage: run.sh <ID> quick|thorough|replay <file>}"
@@ -14,6 +15,10 @@ if [ "$MODE" = replay ] && [ -n "${1:-}" ]; then
   case "$1" in /*) : ;; *) set -- "$(pwd)/$1" "${@:2}" ;; esac
 fi
 export VERIF_DIR="$here"
+# saved libFuzzer inputs (found/<ID>/fuzz-*.bin) are replayed by the fuzz target, not the harness binary
+if [ "$MODE" = replay ] && [ "${1##*.}" = bin ]; then
+  exec "$here/tools/fuzz.sh" "$ID" replay "$1"
+fi
 export CARGO_NET_OFFLINE=true
 crate="$(echo "$ID" | tr 'A-Z' 'a-z')"
 cd "$here/harness" || exit 2
@@ -27,4 +32,16 @@ fi
 rm -f "$log"
 export RUST_LOG="${RUST_LOG:-off}"
 tdir="${CARGO_TARGET_DIR:-$here/target}"
-exec "$tdir/debug/$crate" "$MODE" "$@"
+if [ "$MODE" != thorough ]; then
+  exec "$tdir/debug/$crate" "$MODE" "$@"
+fi
+# thorough tier: the harness binary first; when it held and the property has a libFuzzer
+# target (tools/fuzz.sh), a coverage-guided campaign with a fixed runs budget follows and
+# its counts are merged into evidence/<ID>.json (VERIF_NO_FUZZ=1 skips it)
+"$tdir/debug/$crate" "$MODE" "$@"
+rc=$?
+if [ $rc -eq 0 ] && [ -z "${VERIF_NO_FUZZ:-}" ] && "$here/tools/fuzz.sh" "$ID" supports >/dev/null 2>&1; then
+  "$here/tools/fuzz.sh" "$ID" "${VERIF_FUZZ_RUNS:-default}" "${VERIF_SEED:-20260921}"
+  rc=$?
+fi
+exit $rc
